@@ -105,6 +105,11 @@ class History:
         from biobalm import SuccessionDiagram
 
         self.net = net
+        if limit == DEFAULT_LIMIT:
+            # the protective bound of the non-C13 checks scales with the state space like C13's B(n, N)
+            from .guard import work_bound
+
+            limit = max(DEFAULT_LIMIT, work_bound(net.n, 64))
         self.limit = limit
         cfg = None
         if config:
